@@ -25,6 +25,7 @@ file into *file offsets*; the harness checks that end-to-end on every written fi
 -/
 import OdcGeo.Model.IO
 import OdcGeo.Model.Affine
+import OdcGeo.Model.CogShared
 namespace OdcGeo.C05
 
 /-- `Shape2d` as (y, x) -/
@@ -364,5 +365,77 @@ def writeOrder (ms : List Meta) : List (Nat × Nat × Nat × Nat) :=
           (List.range m.chunked.y).flatMap fun y =>
             (List.range m.chunked.x).map fun x => (l, s, y, x)
     bags.reverse.flatten
+
+/-! ### _tifffile.py: _compress_tiles (388-470): re-chunking of the source and which block feeds which tile -/
+
+/-- chunks of a (re-chunked) dask array along the band axis and the regular spatial tile chunks -/
+structure SrcChunks where
+  band : List Nat        -- chunk sizes along the band axis (`[]`: no band axis)
+  tile : YX
+  deriving DecidableEq, Repr
+
+/-- `_chunks` handed to `data.rechunk` for a source with `ns` bands whose band axis is currently chunked as
+`bandChunks` (SYX: band axis first; YXS: last; YX: none):
+  * YX / YXS (`num_planes == 1`): `meta.chunks` — the tile, with ALL samples of a pixel in one chunk;
+  * SYX, 2-D data: the tile;  SYX with the whole band axis in ONE chunk: keep it (`(data.shape[0], *tile)`);
+  * SYX otherwise (any grouping: 2+2, (2,1), one per band …): one band per chunk (`(1, *tile)`). -/
+def compressChunks (ax : Axis) (ndim ns : Nat) (bandChunks : List Nat) (tile : YX) : SrcChunks :=
+  match ax with
+  | .YX => ⟨[], tile⟩
+  | .YXS => ⟨[ns], tile⟩
+  | .SYX =>
+    if ndim = 2 then ⟨[], tile⟩
+    else if bandChunks.length = 1 then ⟨[ns], tile⟩
+    else ⟨List.replicate ns 1, tile⟩
+
+/-- `block_name(s, y, x)`: the chunk index of the source block that feeds tile `(s, y, x)`, as
+`(band chunk index, y, x)` (`none`: no band axis in the key) -/
+def blockName (ax : Axis) (ndim : Nat) (bandChunks : List Nat) (s y x : Nat) : Option Nat × Nat × Nat :=
+  if ndim = 2 then (none, y, x)
+  else match ax with
+    | .SYX => if bandChunks.length = 1 then (some 0, y, x) else (some s, y, x)
+    | _ => (some s, y, x)      -- YXS key `(name, y, x, s)`; `s` is always 0 there (`num_planes == 1`)
+
+/-- `_cog_block_compressor_syx`: which band of the block becomes the tile: 2-D block → the block itself; a block with ONE
+band → that one; else `block[sample_idx]` -/
+def pickPlane (blockNdim blockBands sampleIdx : Nat) : Option Nat :=
+  if blockNdim = 2 then none else if blockBands = 1 then some 0 else some sampleIdx
+
+/-- first band held by band-chunk `k` -/
+def bandOffset (chunks : List Nat) (k : Nat) : Nat := (chunks.take k).sum
+
+/-- the band of the SOURCE that ends up in the tile of plane `s` (SYX, 3-D): offset of the block + plane picked in it -/
+def sourceBandOfTile (ns : Nat) (bandChunks : List Nat) (s : Nat) : Option Nat :=
+  let c := compressChunks .SYX 3 ns bandChunks ⟨16, 16⟩
+  match blockName .SYX 3 bandChunks s 0 0 with
+  | (some kb, _, _) =>
+    match c.band[kb]? with
+    | some nb => (pickPlane 3 nb s).map (bandOffset c.band kb + ·)
+    | none => none          -- the block does not exist (a missing dask key)
+  | _ => none
+
+/-! ### _tifffile.py: save_cog_with_dask (700-707): grouping of the bags handed to `mpu_write` -/
+
+/-- `tiles_write_order = _tiles[::-1]`; if there are more than 4 bags the first four are `dask.bag.concat`-ed into
+one: the list of bag GROUPS (each group is streamed as one bag, members in order) -/
+def bagGroups {β : Type} (tiles : List β) : List (List β) :=
+  let r := tiles.reverse
+  if r.length > 4 then r.take 4 :: (r.drop 4).map fun b => [b] else r.map fun b => [b]
+
+/-! ### _tifffile.py: _patch_hdr (468-500) with statistics: size of the finished header -/
+
+/-- bytes by which `md_tag.overwrite(gdal_metadata)` lengthens the header (tifffile, trusted: a value that does not fit
+into the old value's `oldCount` bytes is appended at the end of the file, NUL terminated; else written in place) -/
+def statsGrow (oldCount xmlLen : Nat) : Nat := if xmlLen + 1 ≤ oldCount then 0 else xmlLen + 1
+
+/-- `hdr_sz = len(_bio.getbuffer())` AFTER the metadata tag was rewritten: what every tile offset is shifted by -/
+def patchedHdrSize (hdr0Len : Nat) (stats : Option (Nat × Nat)) : Nat :=
+  match stats with
+  | none => hdr0Len
+  | some (oldCount, xmlLen) => hdr0Len + statsGrow oldCount xmlLen
+
+/-- `_patch_hdr(tiles, meta, hdr0, stats)` as far as the tile table goes -/
+def patchHdrStats (ms : List Meta) (tiles : List Obs) (hdr0Len : Nat) (stats : Option (Nat × Nat)) : Res TileInfo :=
+  patchHdr ms tiles (patchedHdrSize hdr0Len stats)
 
 end OdcGeo.C05
